@@ -47,5 +47,9 @@ ListsT == { <<1>> }
 PkgsQ == { <<1, 2>>, <<1, 3, 4>>, <<1, 2, 5>>, <<2, 1>>, <<1, 6>>, <<3, 4>>, <<8, 9>>, <<8, 10>>, <<11, 13>>, <<3, 14>>, <<15, 16>>, <<1, 1>>, <<3, 17>> }
 PkgsT == PkgsQ \cup { <<1>>, <<3>>, <<12, 13>>, <<11, 12>>, <<6, 2>>, <<1, 3, 4, 2>>, <<3, 1, 4>>, <<5>> }
 ExtQ == [ExtNone EXCEPT !.pkgs = PkgsQ, !.maxpkg = 1]
+\* C26: the packages that conflict with the pool
+SubC26 == {3, 7}
+PkgsC26 == { <<8, 9>>, <<8, 10>>, <<1, 2>>, <<1, 6>> }
+ExtC26 == [ExtNone EXCEPT !.pkgs = PkgsC26, !.maxpkg = 2]
 ExtT == [ExtNone EXCEPT !.pkgs = PkgsT, !.maxpkg = 2]
 ====
